@@ -331,9 +331,12 @@ class PolygonFilter(object):
     @staticmethod
     def remove(unique_id):
         """Remove a polygon filter from `PolygonFilter.instances`"""
-        for p in PolygonFilter.instances:
+        # (do not use `list.remove`, which removes the first filter that
+        # compares equal, i.e. possibly another one with the same points)
+        for ii, p in enumerate(PolygonFilter.instances):
             if p.unique_id == unique_id:
-                PolygonFilter.instances.remove(p)
+                PolygonFilter.instances.pop(ii)
+                break
 
     def save(self, polyfile, ret_fobj=False):
         """Save all data to a text file (appends data if file exists).
